@@ -388,11 +388,19 @@ package dht
 //@   trusted
 //@ func (*dht.Server).handleQuery@h
 //@   trusted
-// filterPeers: the BEP 32 family filtering of `values` is not under contract yet; the handler is verified to reply with
-// exactly what it returns
+// filterPeers (BEP 32): every endpoint kept is a 4-byte address for a requester that wants IPv4 or a 16-byte address
+// for one that wants IPv6, with the port it was stored with; the handler is verified to reply with exactly this list
+//@ spec def famok(a krpc.NodeAddr, ws []krpc.Want, src []byte) bool = (len(a.IP) == 4 && wants4(ws, src)) || (len(a.IP) == 16 && wants6(ws, src))
 //@ func dht.filterPeers
-//@   trusted
 //@   option records filtered
+//@   requires ip-length: len(querySourceIp) == 4 || len(querySourceIp) == 16
+//@   ensures bep32-families: forall k int :: 0 <= k && k < len(filtered) ==> famok(filtered[k], queryWants, querySourceIp)
+//@   ensures no-more-than-stored: len(filtered) <= len(allPeers)
+//@   ensures only-stored-endpoints: forall k int :: 0 <= k && k < len(filtered) ==> (exists j int :: 0 <= j && j < len(allPeers) && filtered[k].Port == allPeers[j].Port && (len(filtered[k].IP) == len(allPeers[j].IP) ==> filtered[k].IP == allPeers[j].IP))
+//@   loop 1
+//@     invariant bounds: 0 <= $iter && $iter <= len(allPeers) && len(filtered) <= $iter
+//@     invariant only-stored-endpoints: forall k int :: 0 <= k && k < len(filtered) ==> (exists j int :: 0 <= j && j < len(allPeers) && filtered[k].Port == allPeers[j].Port && (len(filtered[k].IP) == len(allPeers[j].IP) ==> filtered[k].IP == allPeers[j].IP))
+//@     invariant bep32-families: forall k int :: 0 <= k && k < len(filtered) ==> famok(filtered[k], queryWants, querySourceIp)
 
 // ---- C09: which contacts a reply propagates ----
 // wants4 / wants6: BEP 32 -- an explicit want list decides; without one, the family of the query's source address
